@@ -273,4 +273,8 @@ func (*BaseNode).RemoveChildren
   loop 0 inv forall i int {kid(self, i)} :: (0 <= i && i < klen(self) && c != nil && i >= kidx(c)) ==> (par(kid(self, i)) == self && nxt(kid(self, i)) == old(nxt(kid(self, i))) && prv(kid(self, i)) == (i == kidx(c) ? nil : old(prv(kid(self, i)))))
   loop 0 inv forall w addr {par(w)} :: old(par(w)) != self ==> (par(w) == old(par(w)) && nxt(w) == old(nxt(w)) && prv(w) == old(prv(w)))
   loop 0 inv n.childCount == old(n.childCount) && n.firstChild == old(n.firstChild) && n.lastChild == old(n.lastChild)
-*/
+// block nodes allocate their line list on demand: never nil
+func (*BaseBlock).Lines
+  ensures result != nil
+  modifies b.lines
+@*/
